@@ -382,9 +382,25 @@ func ruleC06(w *World) {
 	}
 	// (b) every helper returning a signature to ThresholdSignature: non-error returns are verified buffers
 	helpers := map[*ssa.Function]bool{}
+	// a worker the method merely hands over to (`return s.worker()`) is the method's own body, not a reconstruction helper
+	tails := map[*ssa.Function]bool{}
+	var markTails func(f *ssa.Function, d int)
+	markTails = func(f *ssa.Function, d int) {
+		if d > 3 {
+			return
+		}
+		for _, r := range returnsFlat(f) {
+			if h := tailHelper(r); h != nil && !tails[h] {
+				tails[h] = true
+				markTails(h, d+1)
+			}
+		}
+	}
+	markTails(ts, 0)
+	defer func() {}()
 	instrs(ts, func(ins ssa.Instruction) {
 		if c, ok := ins.(*ssa.Call); ok {
-			if f := c.Call.StaticCallee(); f != nil && inModule(f) && f.Signature.Recv() != nil && f != ts && f.Signature.Results().Len() >= 1 {
+			if f := c.Call.StaticCallee(); f != nil && inModule(f) && f.Signature.Recv() != nil && f != ts && !tails[f] && f.Signature.Results().Len() >= 1 {
 				if _, isLock := map[string]bool{"Lock": true, "Unlock": true}[f.Name()]; !isLock {
 					helpers[f] = true
 				}
@@ -396,6 +412,8 @@ func ruleC06(w *World) {
 			n := 0
 			for _, r := range returns(h) {
 				if isNilConst(r.Results[0]) {
+					// no signature: then an error
+					w.check(!isNilConst(r.Results[1]), "C06.R1", fnKey(h)+"/nil-signature-has-error", r.Pos(), "a nil signature comes with an error", "the helper can return a nil signature together with a nil error")
 					continue
 				}
 				n++
@@ -461,14 +479,57 @@ func ruleC06(w *World) {
 	if nst == 0 {
 		w.viol("C06.R1", fnKey(ts)+"/cache-store", ts.Pos(), "the cache is never filled")
 	}
-	// cache returned only when non-nil
+	// cache returned only when non-nil: on every path to the return either the non-nil test of the cache holds, or the
+	// cache was stored on that path (what may be stored is rule (a) above) and not cleared since
+	var cacheSet func(at ssa.Instruction, want string, edge []Fact, depth int) bool
+	cacheSet = func(at ssa.Instruction, want string, edge []Fact, depth int) bool {
+		fs := append(append([]Fact{}, w.factsAt(at)...), edge...)
+		if hasFact(fs, want) {
+			return true
+		}
+		if depth == 0 {
+			return false
+		}
+		b := at.Block()
+		idx := len(b.Instrs)
+		for i, x := range b.Instrs {
+			if x == at {
+				idx = i
+			}
+		}
+		for i := idx - 1; i >= 0; i-- {
+			if st, ok := b.Instrs[i].(*ssa.Store); ok && rootField(st.Addr) == cache {
+				if _, isFA := st.Addr.(*ssa.FieldAddr); isFA {
+					return !isNilConst(st.Val)
+				}
+			}
+		}
+		if len(b.Preds) == 0 {
+			return false
+		}
+		for i, efs := range w.factsPerPred(b) {
+			p := b.Preds[i]
+			if !cacheSet(p.Instrs[len(p.Instrs)-1], want, efs, depth-1) {
+				return false
+			}
+		}
+		return true
+	}
 	for _, r := range returns(ts) {
 		if s := render(r.Results[0]); strings.HasSuffix(s, "."+cache.Name()) {
-			w.requireFacts("C06.R1", fnKey(ts)+"/return-cache", r, s+" != nil")
+			at := locOf(r)
+			w.check(cacheSet(at, s+" != nil", nil, 6), "C06.R1", fnKey(ts)+"/return-cache/guard:"+s+" != nil", r.Pos(), "the cache is returned only when it is non-nil or was just filled on that path", "required dominating guard `"+s+" != nil` is missing on some path to this point", factStrings(w.factsAt(r))...)
 		}
 	}
 	// R2/R3: the two reconstruction functions
-	for _, fn := range []*ssa.Function{w.fn(rootPath, "BLSReconstructThresholdSignature"), w.method(T, "reconstructThresholdSignature")} {
+	// the stateful reconstruction is located by role: the inspector method that holds the interpolation call
+	var statefulRec *ssa.Function
+	for _, fn := range w.srcFuncs(rootPath) {
+		if fn.Signature.Recv() != nil && types.Identical(deref(fn.Signature.Recv().Type()), T) && len(cgoCalls(fn, "E1_lagrange_interpolate_at_zero_write")) > 0 {
+			statefulRec = fn
+		}
+	}
+	for _, fn := range []*ssa.Function{w.fn(rootPath, "BLSReconstructThresholdSignature"), statefulRec} {
 		if fn == nil {
 			w.undecided("C06.R2", "anchor:reconstruct", token.NoPos, "unresolved anchor")
 			continue
